@@ -311,6 +311,35 @@ def _d33(rows, index):
     return index
 
 
+@defect("isunique-rule-unterminated-quote", "c-IsUnique")
+def _d34(rows, index):
+    rows[index][3] = "'" + rows[index][3]
+    return index
+
+
+@defect("distinctcount-rule-unbalanced-parenthesis", "c-DistinctCount")
+def _d35(rows, index):
+    rows[index][3] = rows[index][3].split()[0] + " < (3"
+    return index
+
+
+@defect("distinctcount-undeclared-name-behind-and", "c-DistinctCount")
+def _d36(rows, index):
+    # the rule is tried with a count of 0: `and` never gets to evaluate the name that is no field
+    rows[index][3] = rows[index][3].split()[0] + " >= 1 and nosuchfield < 4"
+    return index
+
+
+@defect("distinctcount-calls-exit", "c-DistinctCount")
+def _d37(rows, index):
+    rows[index][3] = rows[index][3].split()[0] + " < exit()"
+    return index
+
+
+defect("type-unterminated-quote", "f")(_set(5, "'Integer"))
+defect("length-part-contains-the-other", "f", only=lambda rows: not _fixed_only(rows))(_set(4, "5...6, 1...10"))
+
+
 @defect("no-fields-at-all", "format")
 def _d29(rows, index):
     rows[:] = [row for row in rows if row[0].strip().lower() not in ("f", "c")]
